@@ -3,7 +3,7 @@
    Model: coq/theories/Column.v (the per-column bodies of pybufrkit's
    process_*_compressed), over the bit model Bits.v. *)
 From PBK Require Import Base Bits BitsProofs Column ColumnProofs.
-From PBK Require Import Descr Walk Coder Decode Encode RoundTrip DecodeC EncodeC EncodeCG RoundTripC RoundTripCExamples.
+From PBK Require Import Descr Walk Coder Decode Encode RoundTrip DecodeC EncodeC EncodeCG RoundTripC TransparentC RoundTripCExamples.
 
 (* ---- nbits_for_uint: the width the encoder chooses for the increments ------- *)
 (* for x >= 1 it is the least width >= 2 whose all-ones pattern lies above x *)
@@ -326,3 +326,51 @@ Example C05_decode_compressed_nonvacuous :
   exists outs w, encode_compressed exc_T exc_vals = Ok (outs, w) /\
                  decode_compressed exc_T 3 w = Ok (outs, exc_ghost, []).
 Proof. exact exc_decode_direct. Qed.
+
+(* =====================================================================================
+   TRANSPARENCY for whole templates.  encode_compressed_ghost_strict is the compressed
+   ghost encoder refusing in addition (a) a one-bit element missing in some but not all
+   subsets (D18), (b) an "all equal" numeric column whose entries are equal as numbers
+   but not identical (3 and 3.0: only values[0] is scaled), (c) a bitmap that differs
+   between subsets (the compressed coder uses the first subset's).  Whenever it and the
+   uncompressed ghost encoder (C03) both accept a value list, for ANY template:
+   the encoders write w (compressed) and w' (uncompressed), and decoding either,
+   followed by any further bits, yields the same descriptors, links and values.
+   ===================================================================================== *)
+Theorem C05_strict_ghost_is_ghost : forall T vals r,
+  encode_compressed_ghost_strict T vals = Ok r -> encode_compressed_ghost T vals = Ok r.
+Proof. exact strict_ghost_is_ghost. Qed.
+Print Assumptions C05_strict_ghost_is_ghost.
+
+Theorem C05_ghosts_agree : forall T vals outs w g outs' w' g',
+  encode_compressed_ghost_strict T vals = Ok (outs, w, g) ->
+  encode_ghost T vals = Ok (outs', w', g') ->
+  outs' = outs /\ g' = g.
+Proof. exact ghosts_agree. Qed.
+Print Assumptions C05_ghosts_agree.
+
+Theorem C05_compression_transparent : forall T vals outs w g outs' w' g' t t',
+  encode_compressed_ghost_strict T vals = Ok (outs, w, g) ->
+  encode_ghost T vals = Ok (outs', w', g') ->
+  encode_compressed T vals = Ok (outs, w) /\
+  encode_uncompressed T vals = Ok (outs, w') /\
+  decode_compressed T (length vals) (w ++ t) = Ok (outs, g, t) /\
+  decode_uncompressed T (length vals) (w' ++ t') = Ok (outs, g, t').
+Proof. exact compression_transparent. Qed.
+Print Assumptions C05_compression_transparent.
+
+Example C05_transparent_nonvacuous :
+  exists outs w w',
+    encode_compressed_ghost_strict exc_T exc_vals_t = Ok (outs, w, exc_ghost_t) /\
+    encode_ghost exc_T exc_vals_t = Ok (outs, w', exc_ghost_t) /\
+    length w = 358%nat /\ length w' = 336%nat.
+Proof. exact exc_both_accept. Qed.
+
+(* without restriction (a) the statement is false (D18, whole-template form): both plain
+   ghost encoders accept, the readers disagree on the one-bit entry *)
+Theorem C05_onebit_template_refuted :
+  exists T vals outs w g w' g',
+    encode_compressed_ghost T vals = Ok (outs, w, g) /\
+    encode_ghost T vals = Ok (outs, w', g') /\ g <> g'.
+Proof. exact onebit_template_refuted. Qed.
+Print Assumptions C05_onebit_template_refuted.
